@@ -153,7 +153,7 @@ class Similar:
     def signature(self, name, xs, outcome, exc):
         sig = {"name": name.split(":")[0], "mode": self.mode}
         if self.mode == "scale":
-            sig["scale_below_1e-2"] = bool(xs[0] < F(1, 100))
+            sig["scale_below_5e-2"] = bool(xs[0] < F(1, 20))
         if exc:
             sig["exc"] = exc["exc"]
         return sig
@@ -214,7 +214,7 @@ class SimilarPoint:
     def signature(self, name, xs, outcome, exc):
         sig = {"name": name.split(":")[0], "mode": self.mode}
         if self.mode == "scale":
-            sig["scale_below_1e-2"] = bool(xs[0] < F(1, 100))
+            sig["scale_below_5e-2"] = bool(xs[0] < F(1, 20))
         return sig
 
 
